@@ -52,4 +52,22 @@ def routed (n : Nat) (inputs : Nat → List Nat) (d : Nat) : List Nat := reshard
 def detect (n : Nat) (inputs : Nat → List Nat) (d : Nat) : Option Nat :=
   (checkDuplicates {} (routed n inputs d)).2
 
+/-! ### `Query::execute` per shard, with the sizes the code has at hand (b17)
+
+After `reshard_aad` a shard holds TWO collections of unrelated lengths: `decrypted_reports` — the
+reports it received as ITS OWN input (they stay where they were submitted) — and `resharded_tags` —
+the tags ROUTED to it from all shards' inputs.  The code validates `resharded_tags` unconditionally.
+`detectIf guard` is the same step under a guard on these two sizes, so that guarded variants can be
+exhibited; the code is `detectIf (fun _ _ => true)`. -/
+
+/-- `decrypted_reports.len()` of shard `d`: the number of reports it was handed as its own input -/
+def ownSize (inputs : Nat → List Nat) (d : Nat) : Nat := (inputs d).length
+
+/-- verdict of shard `d` when the validator step runs only if `guard own_size routed_size` -/
+def detectIf (guard : Nat → Nat → Bool) (n : Nat) (inputs : Nat → List Nat) (d : Nat) : Option Nat :=
+  if guard (ownSize inputs d) (routed n inputs d).length then detect n inputs d else none
+
+/-- the guard of the seeded variant C11d: `if decrypted_reports.len() > 1 { … }` -/
+def ownAtLeastTwo : Nat → Nat → Bool := fun own _ => decide (1 < own)
+
 end IpaVerif.Dedup
